@@ -309,13 +309,14 @@ example : revealOffset { (default : Envelope) with pointer := some 700 } 5 900 =
 /-! ## The offset-tracking lift (Proofs/IndexLiftOnSat*.lean)
 
 `OnSat` as a per-entry predicate: `OnSatLift.EntSat E e` — every `(seq, off)` listed by the UTXO
-entry `e` names an existing inscription entry of `E`, and if that inscription is bound to a sat
-`s`, the `off`-th sat of `e`'s ranges is `s`.  The mid-block invariant `OnSatLift.BMid NOld bc`
-says this of every table row and every cache row, says that the flotsam saved for the coinbase
-points at its sats in the ranges queued for the coinbase (whose size is the running reward), that
-the pending null entry is on its sats in `NOld ++ lost ranges` (`NOld` = ranges stored under the
-null outpoint, of size `lostSats`) and that the pending unbound entry lists unbound inscriptions
-only. -/
+entry `e` names an existing inscription entry of `E` that is bound to a sat `s`, and the `off`-th
+sat of `e`'s ranges is `s`; `OnSatLift.InsNone E ins` — everything listed has no sat.  The
+mid-block invariant `OnSatLift.BMid NOld bc` says `EntSat` of every table row but the unbound
+pseudo-output's (which is `InsNone`) and of every cache row, says that the flotsam saved for the
+coinbase points at its sats in the ranges queued for the coinbase (whose size is the running
+reward), that the pending null entry is on its sats in `NOld ++ lost ranges` (`NOld` = ranges
+stored under the null outpoint, of size `lostSats`) and that the pending unbound entry is
+`InsNone`. -/
 
 open OnSatLift in
 /-- **Stage (a): one transaction of `index_utxo_entries` keeps every inscription on its sat.**
@@ -347,8 +348,9 @@ open OnSatLift in
 /-- **Stage (b): one block** (`index_utxo_entries` + commit + rune pass + header).  With the sat
 index and the block's inscription pass on, no zero txid and no special outpoint spent outside the
 first transaction (`BlockPlain`), a coinbase first, and `rangesValue (null entry) = lostSats`
-before the block: if every row of the UTXO table — including the null and the unbound
-pseudo-outputs — lists its inscriptions on their sats before the block, so it does after it.
+before the block: if before the block every real output and the null pseudo-output list bound
+inscriptions only, each on its sat, and the unbound pseudo-output lists sat-less inscriptions only
+(`UtxoSat`), then so after it.
 Covers the fee carry into the coinbase queue, the lost placement at `lostSats + …`, the cache
 insert and the block-end flush (`merged`: ranges appended, lists appended). -/
 theorem c03_block_step (cfg : Cfg) (hs : cfg.indexSats = true) (st : State) (blk : Block)
@@ -360,17 +362,23 @@ theorem c03_block_step (cfg : Cfg) (hs : cfg.indexSats = true) (st : State) (blk
 
 open OnSatLift in
 /-- **Stage (c), per-row form**: in every reachable state (sat index on, `InsChain`) every row
-`(outpoint, entry)` of the UTXO table — real outputs, the null and the unbound pseudo-outputs —
-lists only existing inscriptions, and a listed `(seq, off)` whose inscription is bound to a sat
-`s` has `s` as the `off`-th sat of the row's ranges.  (In a block below the first inscription
-height nothing is listed at all.) -/
+`(outpoint, entry)` of the UTXO table lists only existing inscriptions; a `(seq, off)` listed by a
+real output or by the null pseudo-output belongs to an inscription that *is* bound to a sat, and
+that sat is the `off`-th sat of the row's ranges; what the unbound pseudo-output lists has no sat.
+(In a block below the first inscription height nothing is listed at all.) -/
 theorem c03_reachable_rows (cfg : Cfg) (hs : cfg.indexSats = true) (chain : List Block) (st : State)
     (evs : List Event) (hc : InsLift.InsChain chain) (h : run cfg chain = .ok (st, evs)) :
     ∀ o e, (o, e) ∈ st.utxo → ∀ seq off, (seq, off) ∈ e.ins →
-      ∃ entry, st.entries[seq]? = some entry ∧ ∀ s, entry.sat = some s → (den e.ranges)[off]? = some s := by
+      ∃ entry, st.entries[seq]? = some entry ∧
+        (o ≠ OutPoint.unbound → ∃ s, entry.sat = some s ∧ (den e.ranges)[off]? = some s) ∧
+        (o = OutPoint.unbound → entry.sat = none) := by
   intro o e hm seq off hin
-  obtain ⟨entry, h1, h2⟩ := run_utxoSat cfg hs chain st evs hc.ok (chainPlain_of_insChain hc) h (o, e) hm seq off hin
-  exact ⟨entry, h1, fun s hs' => by rw [insloc_den_eq]; exact h2 s hs'⟩
+  have hU := run_utxoSat cfg hs chain st evs hc.ok (chainPlain_of_insChain hc) h (o, e) hm
+  by_cases ho : o = OutPoint.unbound
+  · obtain ⟨entry, h1, h2⟩ := hU.2 ho seq off hin
+    exact ⟨entry, h1, fun hn => absurd ho hn, fun _ => h2⟩
+  · obtain ⟨entry, s, h1, h2, h3⟩ := hU.1 ho seq off hin
+    exact ⟨entry, h1, fun _ => ⟨s, h2, by rw [insloc_den_eq]; exact h3⟩, fun hc' => absurd hc' ho⟩
 
 /-- **C03 for every reachable state.**  After every chain (`InsLift.InsChain`: pairwise distinct
 non-zero txids, no spend of the null / unbound outpoint outside a block's first transaction, every
@@ -382,6 +390,17 @@ and the `offset`-th sat of that row's ranges is the inscription's sat. -/
 theorem c03_reachable (cfg : Cfg) (hs : cfg.indexSats = true) (chain : List Block) (st : State)
     (evs : List Event) (hc : InsLift.InsChain chain) (h : run cfg chain = .ok (st, evs)) : OnSat st :=
   OnSatLift.run_onSat cfg hs chain st evs hc h
+
+/-- **Unbound inscriptions, reachable states**: with the sat index on, an inscription has no sat
+exactly when it is located at the unbound pseudo-output (so every inscription on a real output or
+at the null outpoint is bound, and `OnSat` says where its sat is; and whatever was revealed on a
+zero-value input or with an unrecognised even field — `c03_reveal`, `c03_new_inscription` — stays
+at the unbound pseudo-output without a sat). -/
+theorem c03_reachable_unbound (cfg : Cfg) (hs : cfg.indexSats = true) (chain : List Block) (st : State)
+    (evs : List Event) (hc : InsLift.InsChain chain) (h : run cfg chain = .ok (st, evs))
+    (i : Nat) (entry : InsEntry) (hi : st.entries[i]? = some entry) :
+    entry.sat = none ↔ ∃ off, AL.get st.seq2sp i = some ⟨OutPoint.unbound, off⟩ :=
+  OnSatLift.run_unbound_iff cfg hs chain st evs hc h i entry hi
 
 /-- the same for `Reachable` states, the chain being the witness -/
 theorem c03_reachable_state (cfg : Cfg) (hs : cfg.indexSats = true) (st : State)
@@ -399,10 +418,12 @@ theorem c03_valid_chain (cfg : Cfg) (hs : cfg.indexSats = true) (chain : List Bl
   ⟨c03_reachable cfg hs chain st evs hc h, (onSatB_iff st).2 (c03_reachable cfg hs chain st evs hc h)⟩
 
 /-! Non-vacuity of the lift: an inscription revealed in block 1 on the first sat of block 0's
-coinbase (sat 0, output `3:0`), moved in block 2 (to `5:0`) and spent to fees in block 3 (the
-coinbase pays out less than the subsidy + fee, so it lands on the null outpoint at offset 0, whose
-ranges then start with sat 0).  The chain is valid, the sat index is on, indexing succeeds, and
-the inscription is bound to sat 0. -/
+coinbase (sat 0, output `3:0`), moved in block 2 (to `5:0`) — by a transaction that also reveals a
+second inscription with an unrecognised even field, which is unbound — and spent to fees in block 3
+(the coinbase pays out less than the subsidy + fee, so the first inscription lands on the null
+outpoint at offset 0, whose ranges then start with sat 0).  The chain is valid, the sat index is
+on, indexing succeeds, inscription 0 is bound to sat 0 and inscription 1 has no sat and sits at the
+unbound pseudo-output. -/
 
 def osCfg : Cfg :=
   { indexSats := true, indexAddresses := true, indexTransactions := false, indexInscriptions := true, indexRunes := false, firstInscriptionHeight := 1, jubileeHeight := 0, firstRuneHeight := 0 }
@@ -416,17 +437,19 @@ def osSpend (txid : Txid) (prev : OutPoint) (envs : List Envelope) (outs : List 
 def osChain : List Block :=
   [{ height := 0, time := 0, hash := 100, minimumRune := 0, txs := [osCb 1 5000000000] },
    { height := 1, time := 0, hash := 101, minimumRune := 0, txs := [osCb 2 5000000000, osSpend 3 ⟨1, 0⟩ [osEnv] [osOut 5000000000]] },
-   { height := 2, time := 0, hash := 102, minimumRune := 0, txs := [osCb 4 5000000000, osSpend 5 ⟨3, 0⟩ [] [osOut 5000000000]] },
+   { height := 2, time := 0, hash := 102, minimumRune := 0, txs := [osCb 4 5000000000, osSpend 5 ⟨3, 0⟩ [{ osEnv with unrecognizedEven := true }] [osOut 5000000000]] },
    { height := 3, time := 0, hash := 103, minimumRune := 0, txs := [osCb 6 5000000000, osSpend 7 ⟨5, 0⟩ [] []] }]
 
-def osView (r : Outcome (State × List Event)) : Option (List (Option Nat) × Option SatPoint × Option (Nat × Nat)) :=
+def osView (r : Outcome (State × List Event)) :
+    Option (List (Option Nat) × Option SatPoint × Option SatPoint × Option (Nat × Nat)) :=
   match r with
-  | .ok (st, _) => some (st.entries.map (·.sat), AL.get st.seq2sp 0,
+  | .ok (st, _) => some (st.entries.map (·.sat), AL.get st.seq2sp 0, AL.get st.seq2sp 1,
       ((AL.get st.utxo OutPoint.null).map (·.ranges)).getD [] |>.head?)
   | _ => none
 
 example : Valid.validChain osChain = true ∧ osCfg.indexSats = true ∧
-    osView (run osCfg osChain) = some ([some 0], some ⟨OutPoint.null, 0⟩, some (0, 5000000000)) := by
+    osView (run osCfg osChain) =
+      some ([some 0, none], some ⟨OutPoint.null, 0⟩, some ⟨OutPoint.unbound, 0⟩, some (0, 5000000000)) := by
   refine ⟨by decide, rfl, by decide⟩
 
 end Ord.Index.Insloc
